@@ -3,9 +3,10 @@ EXTENDS Variants, Json
 CONSTANTS MaxVariants, EmitCases, AllowNamed
 VARIABLES vs, generic, forms
 
-Kinds == {[k |-> "unit", tys |-> <<>>], [k |-> "tuple", tys |-> <<"A">>], [k |-> "tuple", tys |-> <<"B">>],
+\* `V()` and `V {}` are variants of their kind with no field: accessors treat them like unit variants
+Kinds == {[k |-> "unit", tys |-> <<>>], [k |-> "tuple", tys |-> <<>>], [k |-> "tuple", tys |-> <<"A">>], [k |-> "tuple", tys |-> <<"B">>],
           [k |-> "tuple", tys |-> <<"A", "B">>], [k |-> "tuple", tys |-> <<"B", "A">>]}
-         \cup (IF AllowNamed THEN {[k |-> "named", tys |-> <<"A">>], [k |-> "named", tys |-> <<"A", "B">>]} ELSE {})
+         \cup (IF AllowNamed THEN {[k |-> "named", tys |-> <<>>], [k |-> "named", tys |-> <<"A">>], [k |-> "named", tys |-> <<"A", "B">>]} ELSE {})
 \* tuple / named variants with field-level #[try_into(ignore)]: leading, trailing and MIDDLE ignored fields, with
 \* equal neighbouring types so that binding the wrong field still type-checks
 FKinds == {[k |-> "tuple", tys |-> <<"A", "B">>, fign |-> <<TRUE, FALSE>>],
